@@ -119,3 +119,8 @@ instance floatOps : FOps where
   parse := floatParse
 
 end Anko
+
+namespace Anko
+/-- the real interpreter: containers and interface-returning Go functions hand out flagged values -/
+instance realProv : Prov := ⟨true⟩
+end Anko
